@@ -40,6 +40,37 @@ def confirm(wt, k):
     return out
 
 
+def do_import_benign(prop, wt, rnd):
+    """Benign (property-preserving) invasive changes: tests pass, demo passes with and without."""
+    env = dict(os.environ, PYTHONPATH=f"{wt}/src")
+    for pf in sorted(glob.glob(f"{wt}/out/patch_*.diff")):
+        k = re.search(r"patch_(\d+)", pf).group(1)
+        sh("git checkout -- .", cwd=wt)
+        rc, o = sh(f"git apply --check out/patch_{k}.diff && git apply out/patch_{k}.diff", cwd=wt)
+        if rc != 0:
+            print(prop, k, "does not apply", o[-200:]); continue
+        rc, o = sh(f"{PY} -m pytest -q -p no:cacheprovider --continue-on-collection-errors tests", cwd=wt, env=env)
+        m = re.search(r"(\d+) passed", o); npass = int(m.group(1)) if m else 0
+        nfail = int(re.search(r"(\d+) failed", o).group(1)) if re.search(r"(\d+) failed", o) else 0
+        rc1, o1 = sh(f"{PY} out/demo_{k}.py", cwd=wt, env=env, timeout=900)
+        sh("git checkout -- . && git clean -fdq src", cwd=wt)
+        rc0, o0 = sh(f"{PY} out/demo_{k}.py", cwd=wt, env=env, timeout=900)
+        ok = npass >= 54 and nfail == 0 and rc1 == 0 and rc0 == 0
+        sid = f"{prop}-b{rnd}-{k}"
+        print(sid, "confirmed" if ok else f"NOT CONFIRMED pass={npass} fail={nfail} demo_with={rc1} demo_clean={rc0}")
+        if not ok:
+            continue
+        d = f"{V}/seeded_benign/{sid}"
+        os.makedirs(d, exist_ok=True)
+        shutil.copy(pf, f"{d}/patch.diff")
+        shutil.copy(f"{wt}/out/demo_{k}.py", f"{d}/demo.py")
+        note = open(f"{wt}/out/note_{k}.md").read() if os.path.exists(f"{wt}/out/note_{k}.md") else ""
+        json.dump({"id": sid, "property": prop, "kind": "benign: the property still holds; every check must stay silent",
+                   "source": f"sub-agent (benign round {rnd}), given only the property text and a scratch worktree",
+                   "argument": note.strip(), "confirmation": {"tests_passed": npass, "demo_with_change_rc": rc1, "demo_clean_rc": rc0},
+                   "checks": {}}, open(f"{d}/meta.json", "w"), indent=1)
+
+
 def do_import(prop, wt, rnd):
     for pf in sorted(glob.glob(f"{wt}/out/patch_*.diff")):
         k = re.search(r"patch_(\d+)", pf).group(1)
@@ -60,11 +91,11 @@ def do_import(prop, wt, rnd):
         json.dump(meta, open(f"{d}/meta.json", "w"), indent=1)
 
 
-def run_checks(ids, tier, all_props, runs=None):
+def run_checks(ids, tier, all_props, runs=None, benign=False):
     tmp = tempfile.mkdtemp(prefix="seed_", dir="/tmp")
     rows = []
     try:
-        for d in sorted(glob.glob(f"{V}/seeded/*/")):
+        for d in sorted(glob.glob(f"{V}/{'seeded_benign' if benign else 'seeded'}/*/")):
             sid = os.path.basename(d.rstrip("/"))
             if ids and not any(i in sid for i in ids):
                 continue
@@ -86,7 +117,12 @@ def run_checks(ids, tier, all_props, runs=None):
                 res = {"rc": rc, "tier": tier, "runs": runs, "wall_s": round(time.time() - t0, 1), "first": viol[0][:300] if viol else ""}
                 meta["checks"][p] = res
                 rows.append((sid, p, rc, viol[0][:160] if viol else ""))
-                print(f"{sid} [{p}] rc={rc} {'CAUGHT' if rc == 1 else 'MISSED' if rc == 0 else 'HARNESS'} {viol[0][:160] if viol else ''}", flush=True)
+                if benign:
+                    tag = {0: "silent (ok)", 1: "FALSE ALARM", 2: "HARNESS"}.get(rc, rc)
+                else:
+                    tag = 'CAUGHT' if rc == 1 else 'MISSED' if rc == 0 else 'HARNESS'
+                extra = viol[0][:200] if viol else ("" if rc != 2 else o[-600:].replace("\n", " | "))
+                print(f"{sid} [{p}] rc={rc} {tag} {extra}", flush=True)
             json.dump(meta, open(f"{d}/meta.json", "w"), indent=1)
     finally:
         shutil.rmtree(tmp, ignore_errors=True)
@@ -98,6 +134,8 @@ if __name__ == "__main__":
     a = sys.argv[1:]
     if a[0] == "import":
         do_import(a[1], a[2], a[3])
+    elif a[0] == "import-benign":
+        do_import_benign(a[1], a[2], a[3])
     else:
         tier = "quick"; runs = None
         if "--tier" in a:
@@ -105,5 +143,6 @@ if __name__ == "__main__":
         if "--runs" in a:
             i = a.index("--runs"); runs = int(a[i + 1]); del a[i:i + 2]
         allp = "--all-props" in a
+        benign = "--benign" in a
         a = [x for x in a[1:] if not x.startswith("--")]
-        run_checks(a, tier, allp, runs)
+        run_checks(a, tier, allp, runs, benign)
